@@ -23,5 +23,5 @@ for p in "$@"; do
   out=$(/verif/bin/check $p --tier quick 2>&1); rc=$?
   echo "CHECK $p exit=$rc: $(echo "$out" | grep -c '^VIOLATION') violations"; echo "$out" | grep -A1 "^VIOLATION" | grep -v "^--" | head -6
 done
-git -C /repo checkout -- .
+git -C /repo apply -R "$SD/patch.diff"
 git -C /repo status --short | head -3
